@@ -90,12 +90,13 @@ class AffineParser(BaseParser):
                 return lhs - rhs
             case "*":
                 return lhs * rhs
-            case "ceildiv":
-                return lhs.ceil_div(rhs)
-            case "floordiv":
-                return lhs // rhs
-            case "mod":
-                return lhs % rhs
+            case "ceildiv" | "floordiv" | "mod":
+                try:
+                    if binop.text == "ceildiv":
+                        return lhs.ceil_div(rhs)
+                    return lhs // rhs if binop.text == "floordiv" else lhs % rhs
+                except ZeroDivisionError:
+                    raise ParseError(binop.span, "division by zero in affine expression")
             case _:
                 raise ParseError(binop.span, f"Unknown binary operator {binop.text}")
 
